@@ -100,7 +100,7 @@ class AliasWorld(WorldBase):
             return self.gen_new(ch)
         w = [('call', 10), ('new', 2 if len(hs) < self.config['pool_max'] else 0.2), ('write', 10 * self.config['p_write'] if self.locker else 0),
              ('roundtrip', 1.5), ('selector', 4), ('operator', 2), ('write_out', 1 if self.handed else 0), ('drop', 0.5 if len(hs) > 3 else 0),
-             ('mutate_attempt', 1)]
+             ('mutate_attempt', 1), ('go_grow', 2)]
         what = ch.weighted(w)
         if what == 'new':
             return self.gen_new(ch)
@@ -123,6 +123,8 @@ class AliasWorld(WorldBase):
         if what == 'operator':
             return {'op': 'operator', 'h': h, 'which': ch.choice(['add', 'mul', 'eq', 'neg', 'invert', 'abs', 'matmul', 'lt', 'radd', 'self', 'floordiv', 'and']),
                     'other_h': ch.choice(hs)}
+        if what == 'go_grow':
+            return {'op': 'go_grow', 'h': h, 'how': ch.choice(['to_frame_go', 'ctor_go', 'to_frame_go_twice', 'columns_go', 'index_go']), 'grow': ch.choice(['setitem', 'extend', 'extend_items', 'append'])}
         if what == 'mutate_attempt':
             return {'op': 'mutate_attempt', 'h': h, 'how': ch.choice(['setitem', 'setattr_name', 'delitem', 'iloc_assign', 'loc_assign', 'setattr_values', 'delattr', 'values_fill', 'index_setitem', 'inplace_add'])}
         return {'op': 'drop', 'h': h}
@@ -155,6 +157,11 @@ class AliasWorld(WorldBase):
                 a = np.arange(total).astype('timedelta64[D]') + np.datetime64('2020-01-01')
         else:
             a = np.array([('o%d' % i if i % 2 else i) for i in range(total)], dtype=object) if total else np.array([], dtype=object)
+        if shape2 is None and layout in ('view', 'strided', 'mixed') and total and writeable:
+            # the caller keeps a bigger buffer and hands in a window on it: freezing the window does not freeze the buffer
+            base = np.concatenate([a, a, a])
+            self._keep(base, 'base buffer of a 1-D window')
+            a = base[total: 2 * total]
         if shape2 is not None:
             a = a.reshape(n, shape2)
             if layout == 'fortran':
@@ -383,6 +390,10 @@ class AliasWorld(WorldBase):
                 labels = labels + ['x%d' % i for i in range(n - len(labels))]
             if op['index_array']:
                 a = np.array(labels, dtype=str) if n else np.array([], dtype=str)
+                if n and op['layout'] in ('view', 'strided') and iw:  # a read-only window is outside the claim
+                    base = np.concatenate([a, a])
+                    self._keep(base, 'base buffer of a label window')
+                    a = base[:n]
                 a.flags.writeable = iw
                 return self._keep(a, f'{kind} axis{axis} labels')
             return labels
@@ -390,7 +401,7 @@ class AliasWorld(WorldBase):
         def build():
             if kind in ('Series', 'SeriesHE'):
                 cls = getattr(sf, kind)
-                a = self._keep(self._mk_array(nr, dk, w), 'Series values')
+                a = self._keep(self._mk_array(nr, dk, w, layout=op['layout']), 'Series values')
                 r = route % 5
                 if r == 0:
                     return cls(a, index=index_arg(nr, 0), name=name), 'Series(array)'
@@ -408,7 +419,7 @@ class AliasWorld(WorldBase):
                 if r == 0:
                     a = self._keep(self._mk_array(nr, dk, w, nc, layout), 'Frame 2d values')
                     return cls(a, index=index_arg(nr, 0), columns=index_arg(nc, 1), name=name), f'Frame(array2d:{layout})'
-                cols = [self._keep(self._mk_array(nr, (dk if layout != 'mixed' else 'ifUbOM'[j % 6]), w), f'Frame column {j}') for j in range(nc)]
+                cols = [self._keep(self._mk_array(nr, (dk if layout != 'mixed' else 'ifUbOM'[j % 6]), w, layout=layout), f'Frame column {j}') for j in range(nc)]
                 labels = COLL[:nc]
                 if r == 1:
                     return cls.from_items(zip(labels, cols), index=index_arg(nr, 0), name=name), 'Frame.from_items(arrays)'
@@ -430,7 +441,7 @@ class AliasWorld(WorldBase):
                 v = a[:, ::2] if nc > 1 else a
                 return cls(v, index=index_arg(nr, 0), name=name), 'Frame(strided view)'
             if kind == 'Index':
-                a = self._keep(self._mk_array(nr, dk if dk != 'b' else 'i', w), 'Index labels')
+                a = self._keep(self._mk_array(nr, dk if dk != 'b' else 'i', w, layout=op['layout']), 'Index labels')
                 r = route % 3
                 if r == 0:
                     return sf.Index(a, name=name), 'Index(array)'
@@ -438,7 +449,7 @@ class AliasWorld(WorldBase):
                     return sf.Index(a, name=name, dtype=a.dtype), 'Index(array,dtype)'
                 return sf.Index(sf.Series(a)), 'Index(Series(array))'
             if kind == 'IndexDate':
-                a = self._keep(self._mk_array(nr, 'M', w), 'IndexDate labels')
+                a = self._keep(self._mk_array(nr, 'M', w, layout=op['layout']), 'IndexDate labels')
                 return sf.IndexDate(a, name=name), 'IndexDate(array)'
             # IndexHierarchy
             n = max(nr, 1)
@@ -654,6 +665,57 @@ class AliasWorld(WorldBase):
             return 'raise:' + type(r).__name__
         self.stats['member_ok:' + site] += 1
         self.collect(r, site, 'operator')
+        return 'ok'
+
+    def do_go_grow(self, op, dec_):
+        '''Convert a static container to its grow-only form and grow that: nothing may show through the static one.'''
+        sf = self.sf
+        e = self.get(op['h'])
+        if e is None:
+            return 'skip'
+        obj = e.obj
+        how, grow = op['how'], op['grow']
+
+        def run():
+            if isinstance(obj, sf.Frame):
+                if how == 'to_frame_go':
+                    g = obj.to_frame_go()
+                elif how == 'to_frame_go_twice':
+                    g = obj.to_frame_go().to_frame_go()
+                elif how == 'columns_go':
+                    g = sf.IndexGO(obj.columns) if obj.columns.depth == 1 else sf.IndexHierarchyGO(obj.columns)
+                elif how == 'index_go':
+                    g = sf.IndexGO(obj.index) if obj.index.depth == 1 else sf.IndexHierarchyGO(obj.index)
+                else:
+                    g = sf.FrameGO(obj)
+            elif isinstance(obj, sf.Series):
+                g = obj.to_frame_go() if how != 'index_go' else (sf.IndexGO(obj.index) if obj.index.depth == 1 else sf.IndexHierarchyGO(obj.index))
+            elif isinstance(obj, sf.IndexHierarchy):
+                g = sf.IndexHierarchyGO(obj)
+            else:
+                g = obj._MUTABLE_CONSTRUCTOR(obj) if hasattr(obj, '_MUTABLE_CONSTRUCTOR') else sf.IndexGO(obj)
+            if isinstance(g, sf.Frame):
+                n = len(g.index)
+                key = 'ZZnew' if g.columns.depth == 1 else tuple(['ZZnew'] * g.columns.depth)
+                if grow == 'setitem':
+                    g[key] = 0
+                elif grow == 'extend':
+                    g.extend(sf.Frame.from_dict({'ZZa': list(range(n)), 'ZZb': list(range(n))}, index=g.index) if g.columns.depth == 1
+                             else sf.Series(list(range(n)), index=g.index, name=key))
+                elif grow == 'extend_items':
+                    g.extend_items(((key, list(range(n))),))
+                else:
+                    g[key] = np.arange(n)
+            elif isinstance(g, sf.IndexHierarchy):
+                g.append(tuple(['ZZnew'] * g.depth))
+            else:
+                g.append('ZZnew' if g.dtype.kind != 'M' else np.datetime64('1999-09-09'))
+            return g
+        st, r = call(run)
+        if st == 'raise':
+            self.fault('failing-call')
+            return 'raise:' + type(r).__name__
+        self.fault('grow-only-conversion-grown')
         return 'ok'
 
     def do_mutate_attempt(self, op, dec_):
